@@ -404,3 +404,44 @@ func VH_C01_NonMinimal() {
 	vassert(err3 == nil && n == int64(len(list)) && len(tt) == 2, "non-minimal: block-list parse consumes exactly both transactions")
 	vreach("nonminimal-done")
 }
+
+// C01-L: block-list parsing with the transaction count on the varint boundaries and beyond: every
+// listed transaction is decoded and the bytes are consumed exactly to the end. The transactions are
+// minimal (no inputs, no outputs) with symbolic version and lock time in the first and last one.
+func VH_C01_ListCount() {
+	n := []int{0, 1, 252, 253, 1024, 1025, 3000}[vnondetLen("ntx", 0, 4+2*vparam("BIG", 0))]
+	var b []byte
+	switch {
+	case n < 253:
+		b = append(b, byte(n))
+	default:
+		b = append(b, 0xfd, byte(n), byte(n>>8))
+	}
+	v0, l0 := vnondetU32("version-first"), vnondetU32("locktime-first")
+	v1, l1 := vnondetU32("version-last"), vnondetU32("locktime-last")
+	vassume(l0 != 0xEF000000 && l1 != 0xEF000000) // the excluded ambiguous shape
+	for i := 0; i < n; i++ {
+		v, l := uint32(1), uint32(0)
+		if i == 0 {
+			v, l = v0, l0
+		} else if i == n-1 {
+			v, l = v1, l1
+		}
+		b = append(b, byte(v), byte(v>>8), byte(v>>16), byte(v>>24), 0, 0, byte(l), byte(l>>8), byte(l>>16), byte(l>>24))
+	}
+	var tt Txs
+	used, err := tt.ReadFrom(bytes.NewReader(b))
+	vassert(err == nil, "list: a well-formed counted list parses")
+	if err != nil {
+		return
+	}
+	vassert(int(used) == len(b), "list: consumed exactly to the end of the list")
+	vassert(len(tt) == n, "list: every listed transaction is decoded")
+	if n > 0 && len(tt) == n {
+		vassert(tt[0].Version == v0 && tt[0].LockTime == l0, "list: first transaction preserved")
+		if n > 1 {
+			vassert(tt[n-1].Version == v1 && tt[n-1].LockTime == l1, "list: last transaction preserved")
+		}
+	}
+	vreach("list-done")
+}
